@@ -718,7 +718,7 @@ static plan::Plan genC16(uint64_t seed, const std::string& tier) {
     addArg(&p, "--mqttport=1883");
     addArg(&p, "--mqtttopic=ebusd/%circuit/%name");
     p.add("mqttsink on=1");
-    p.add("cfg minms=14000");
+    p.add("cfg minms=16000");
     if (r.chance(0.6)) {
       std::vector<std::string> d;
       int k = static_cast<int>(r.below(3));
@@ -961,6 +961,7 @@ static plan::Plan genC20(uint64_t seed, const std::string& tier) {
       }
       // commands that switch the connection into another protocol mode would make the response framing differ
       std::string lower = line;
+      lower.erase(0, lower.find_first_not_of(" \t"));   // leading blanks do not count (" q" is the quit command as well)
       std::transform(lower.begin(), lower.end(), lower.begin(), ::tolower);
       if (lower.compare(0, 6, "listen") == 0 || lower.compare(0, 2, "l ") == 0 || lower == "l" || lower.compare(0, 6, "direct") == 0 || lower.compare(0, 4, "quit") == 0 || lower == "q" || lower.compare(0, 2, "q ") == 0 ||
           lower.compare(0, 4, "scan") == 0 || lower.compare(0, 6, "reload") == 0 || lower.compare(0, 3, "log") == 0 || lower.compare(0, 3, "raw") == 0 || lower.compare(0, 4, "dump") == 0) line = "state";
@@ -969,6 +970,17 @@ static plan::Plan genC20(uint64_t seed, const std::string& tier) {
     // after the garbage: a valid probe must still be answered correctly
     addCmd(&p, r, clientId, "encode UIN 4660", "tag=expect prop=C20 cls=wrong-result-after-garbage sig=encode expect=" + hx("3412"));
     addCmd(&p, r, clientId, "read -f -c probe value", "tag=read msg=value force=1 prop=C20");
+    clientId++;
+  }
+  // clients that give up: connect and close, close in the middle of a line, close before the answer to a command that
+  // goes to the bus has come back
+  int na = static_cast<int>(r.below(4));
+  for (int k = 0; k < na; k++) {
+    p.add("client id=" + std::to_string(clientId) + (r.chance(0.2) ? " http=1" : "") + " at=" + std::to_string(300 + r.below(2500)));
+    static const char* cmds[] = {"read -f -c probe value", "read -f -c cir m0", "write -c cir m1 1", "find -d", "state", "GET /data HTTP/1.1\r\n\r\n", "define -r r,cir,m0,,,08,b509,0d1000,,,UCH"};
+    std::string text = cmds[r.below(7)];
+    size_t cut = r.chance(0.5) ? text.size() + 1 : r.below(static_cast<uint32_t>(text.size() + 1));
+    addCmd(&p, r, clientId, text, "tag=noreply abort=" + std::to_string(cut) + " abortwait=" + std::to_string(r.below(60000)), false);
     clientId++;
   }
   // HTTP garbage
